@@ -35,6 +35,7 @@ pub fn run(ctx: &Ctx) {
         run.space(&sp, &all, false);
     }
     run.space(&ws_class(), &all, false);
+    run.space(&mid_bom(t.pick(3, 4)), &all, false);
     // the same metamorphic relation on the buffered reader (option handling that lives in the
     // source: skip_whitespace for trim_text_start, buffer reuse), under three chunkings
     for piece in [1usize, 2, 3] {
